@@ -43,11 +43,14 @@
    rel allowed and crossorigin not) are proved in Proofs/AttrIdemRelevant.v:
    C20_idempotent_stable_elements3, with C20_condition_separates showing that the decidable
    condition accepts them and rejects the two refuting policies.
-   Missing: UGC's area with a surviving href (patterned rel); carried by the idempotence oracle on every generated case of
+   UGC's area as a link: SpaceSeparatedTokens, as regenerated, is closed under the rewriting of the
+   link pass (Instances/UGCRelClosed.v, by the verified exploration of every residual), hence
+   C20_ugc_every_input: UGCPolicy, every input, under the property's own proviso for del / ins.
+   Missing: policies with patterned forced attributes other than UGC's; carried by the idempotence oracle on every generated case of
    the stated policy class (link grid included), StrictPolicy and UGCPolicy. *)
 From Coq Require Import List NArith Bool.
 Import ListNotations.
-From BM Require Import Bytes Escape Tokenizer Policy Attrs Loop LoopProps EscapeProofs LinkProofs MiscProofs Url Style MapProofs SanRoundTrip PassThrough AttrIdem AttrProvenance AttrIdemLinks LinkIdem AttrIdemAccepted AttrIdemNoUrl AttrIdemRelevant Builder GenTables GenScripts UGCSpec C04Inst PlainInst.
+From BM Require Import Bytes Escape Tokenizer Policy Attrs Loop LoopProps EscapeProofs LinkProofs MiscProofs Url Style MapProofs SanRoundTrip PassThrough AttrIdem AttrProvenance AttrIdemLinks LinkIdem AttrIdemAccepted AttrIdemNoUrl AttrIdemRelevant AttrIdemRelClosed Utf8 Regex UGCRelClosed Builder GenTables GenScripts UGCSpec C04Inst PlainInst.
 
 Theorem C20_escaping_not_applied_twice_partial : forall d,
   render_item (IText (unescape false (render_item (IText d)))) = render_item (IText d).
@@ -222,6 +225,45 @@ Proof.
     rewrite Eu in T. exact T.
 Qed.
 
+(* UGCPolicy, every input, with the property's own proviso and nothing else: area is covered as a link too, because the
+   pattern on its rel (SpaceSeparatedTokens, as regenerated) is closed under the rewriting of the link pass.  The matchers are
+   read as the regexps they were translated from. *)
+Theorem C20_ugc_every_input : forall (I : interp smatcher unit unit),
+  (forall m v, mmatch I m v = Regex.search (snd m) (runes v)) ->
+  (forall raw u, valid_url I ugc raw = Some u -> valid_url I ugc u = Some u) ->
+  forall s,
+  (forall n a aps, In (TStart n a) (tokenize s) \/ In (TSelf n a) (tokenize s) -> mem n [B"del"; B"ins"] = true ->
+     element_policies I ugc n = Some aps -> no_url_attr n (clean_attrs I ugc n a aps)) ->
+  sanitize_bytes I ugc (sanitize_bytes I ugc s) = sanitize_bytes I ugc s.
+Proof.
+  intros I Hmm Hst s Hno. destruct ugc_url_settings as (_ & _ & _ & Hrw & _).
+  apply (sanitize_idempotent_on I ugc (ugc_plain I) ugc_no_comments).
+  intros n a aps Hin Hp.
+  assert (Hs : has_style_policies I ugc n = false).
+  { destruct ugc_no_styles_no_data as (E1 & E2 & E3 & _). unfold has_style_policies. rewrite E1, E2, E3. reflexivity. }
+  assert (Hl : lookup n (elsAndAttrs ugc) = Some aps).
+  { unfold element_policies in Hp. destruct (lookup n (elsAndAttrs ugc)); [exact Hp|].
+    unfold match_regex, matching_entries in Hp. rewrite ugc_no_patterns in Hp. cbn in Hp. discriminate. }
+  destruct ugc_no_cross_no_sandbox as [Hc Hsb].
+  assert (Hnsb : forall l, sandbox_pass ugc n l = l) by (intros l; unfold sandbox_pass; rewrite Hsb; reflexivity).
+  assert (Hnco : forall l, crossorigin_pass ugc n l = l) by (intros l; unfold crossorigin_pass; rewrite Hc; reflexivity).
+  assert (E : forall l, clean_attrs I ugc n l aps = sanitize_attrs I ugc n l aps) by (intros l; unfold clean_attrs; destruct l; reflexivity).
+  destruct (beqb n (B"area")) eqn:Earea.
+  - apply beqb_eq in Earea. subst n. rewrite ugc_area_lookup in Hl. inversion Hl; subst aps. rewrite !E.
+    apply (sanitize_attrs_idem_rel_closed I ugc (B"area") ugc_area_aps Hs); auto.
+    + intros v c1 c2. apply Fa_area_rel_mod. exact Hmm.
+    + intros nf nr. apply Fa_area_rel_app. exact Hmm.
+    + apply (url_unpatterned_sound _ _ _ I ugc); [exact Hs | vm_compute; reflexivity].
+  - destruct (mem n [B"del"; B"ins"]) eqn:Eu.
+    + specialize (Hno n a aps Hin Eu Hp). rewrite E in Hno. rewrite !E.
+      apply (sanitize_attrs_idem_no_url I ugc n aps Hs); assumption.
+    + apply (elem_stable_sound I ugc Hrw Hst); [exact Hs|].
+      pose proof ugc_elements_stable as T. rewrite forallb_forall in T. specialize (T _ (lookup_In_gen _ _ _ Hl)). cbn [fst snd] in T.
+      assert (Eun : mem n ugc_unstable = false).
+      { unfold ugc_unstable. cbn [mem existsb] in *. unfold mem in *. cbn [existsb] in *. rewrite Earea. exact Eu. }
+      rewrite Eun in T. exact T.
+Qed.
+
 Theorem C20_strict : forall (I : interp smatcher unit unit) s,
   sanitize_bytes I strict (sanitize_bytes I strict s) = sanitize_bytes I strict s.
 Proof.
@@ -275,6 +317,19 @@ Example C20_ugc_proviso_example :
     = B"<del datetime=""2020-01-01"">x</del><ins>y</ins><area alt=""a"" shape=""rect""><p>z</p>".
 Proof. split; vm_compute; reflexivity. Qed.
 
+(* the link path of area in the model: the patterned rel is rewritten on the first pass and kept on the second *)
+Definition c20_interp_rx : interp smatcher unit unit :=
+  {| mmatch := fun m v => Regex.search (snd m) (runes v); upol := fun _ _ => true; rewrite := fun _ b => b;
+     url_parse := fun b => Some {| u_scheme := B"http"; u_host := B"example.org"; u_opaque := []; u_rawquery := [];
+                                   u_fragment := []; u_string := b |};
+     css_decls := fun _ => None |}.
+Example C20_ugc_area_example :
+  sanitize_bytes c20_interp_rx ugc (B"<area href=""http://example.org/"" rel=""a b"" alt=""x""><area href=""http://example.org/"" rel=""a&lt;b"">")
+    = B"<area href=""http://example.org/"" rel=""a b nofollow"" alt=""x""><area href=""http://example.org/"" rel=""nofollow"">" /\
+  sanitize_bytes c20_interp_rx ugc (B"<area href=""http://example.org/"" rel=""a b nofollow"" alt=""x""><area href=""http://example.org/"" rel=""nofollow"">")
+    = B"<area href=""http://example.org/"" rel=""a b nofollow"" alt=""x""><area href=""http://example.org/"" rel=""nofollow"">".
+Proof. split; vm_compute; reflexivity. Qed.
+
 (* a second witness of the same kind (finding F17): rel is not allowed on link but crossorigin is; the first pass appends
    rel and then crossorigin, the second drops rel, keeps crossorigin in place and appends rel behind it *)
 Definition c20_policy2 : policy smatcher unit unit :=
@@ -310,6 +365,7 @@ Proof. repeat split; vm_compute; reflexivity. Qed.
 Print Assumptions C20_link_passes_idempotent.
 Print Assumptions C20_attrs_stable_no_surviving_url.
 Print Assumptions C20_ugc_no_surviving_url.
+Print Assumptions C20_ugc_every_input.
 Print Assumptions C20_attrs_stable_forced_accepted_or_rejected.
 Print Assumptions C20_idempotent_stable_elements2.
 Print Assumptions C20_idempotent_stable_elements3.
